@@ -335,6 +335,35 @@ def run(tier, seed):
             fails += 1
             rep.violation("contextmanager:setup-raises", {"exception": exc_cls.__name__, "why": "the generator raises %s before its yield; (outcome, type, message, same object, cause): "
                                                           "asyncstdlib %r, contextlib %r" % (exc_cls.__name__, outs[0], outs[1])})
+    # used as a decorator, the "block" is the call of the decorated function -- including the call expression itself: a call
+    # with non-fitting arguments fails inside the context, so the generator sees that TypeError (and may swallow or replace it)
+    for handler in ("none", "swallow", "reraise", "raise_new", "finally"):
+        def decorated_outcomes(factory):
+            counts = []
+            genf = make_gen("yield", handler, "stop")
+
+            def func():
+                g = genf()
+                counts.append(g)
+                return g
+            cmf = factory(func)
+
+            @cmf()
+            async def body(x):
+                return x + 1
+            outs = []
+            for call_args in ((1,), (), (1, 2)):
+                try:
+                    outs.append(("ok", drive(body(*call_args))))
+                except BaseException as e:  # noqa
+                    outs.append(("raises", type(e).__name__, str(e)[:20] if not isinstance(e, TypeError) else "call failed"))
+            return outs, len(counts), [g.ag_frame is None for g in counts]
+        got, want = decorated_outcomes(a.contextmanager), decorated_outcomes(contextlib.asynccontextmanager)
+        rep.count(("contextmanager-decorated-bad-call", handler), True)
+        if got != want:
+            fails += 1
+            rep.violation("contextmanager:decorated-call", {"handler": handler, "why": "decorated function called with fitting / missing / surplus arguments (outcomes, generators created, "
+                                                            "generators finished): asyncstdlib %r, contextlib %r" % (got, want)})
     # a manager object owns exactly one run of its generator: entering it a second time (after its block ended, or while it
     # is active) is refused, the generator body never runs twice -- as with asynccontextmanager
     for when in ("after",):     # (re-entering while the first block is still active is misuse on which the two libraries differ)
